@@ -25,11 +25,11 @@ PROPS = {
     'C01': dict(level='proof', theorem_modules=['C01', 'C09Lookahead', 'Accepted'], min_theorems=12, tags=['C01'], crash_counts=True,
                 gen=parse_family('C01', 1500, 40000), flavours=['c'],
                 rule='random grammars (1-5 nonterminals, nullable/recursive/ambiguous/error shapes) x sampled sentences, prefixes, mutations, random strings; every input parsed at lookahead 0,1,2 with random one_parse/cost and recovery on/off; non-trivial = distinct case text with at least one judged parse',
-                assumptions=COMMON_ASSUME + ['accepts_iff_sentence is proved for lookahead level 0 (and soundness for every level); levels 1/2 are tied by the set-level correspondence and cross-level comparison']),
+                assumptions=COMMON_ASSUME + ['accepts_iff_sentence is proved for the level-0/1 model and accepts2_iff_sentence for the level-2 model, for every grammar readGrammar accepts (Props/Accepted.lean); recovery-on runs of non-sentences are judged by the recovery model']),
     'C02': dict(level='proof', theorem_modules=['C02', 'Accepted'], min_theorems=8, tags=['C02'], crash_counts=True,
                 gen=parse_family('C02', 1500, 40000), flavours=['c'],
                 rule='random grammars with random translations (permuted, partial, nil-padded, pass-through, empty); sentences <= 7 tokens; one_parse=1 cost=0; tree compared with the enumerated translations of all derivations',
-                assumptions=COMMON_ASSUME + ['depth bound of derivations (fuel (|N|+1)(n+2)) is not yet proved; enumeration capped at 3000 derivations per input']),
+                assumptions=COMMON_ASSUME + ['enumeration capped at 3000 derivations per input and 9 tokens (depth_bound: the enumerator is complete for every accepted grammar)']),
     'C03': dict(level='proof', theorem_modules=['C03', 'C02'], min_theorems=8, tags=['C03'], crash_counts=True,
                 gen=parse_family('C03', 1500, 40000), flavours=['c'],
                 rule='as C02 with one_parse=0: set of trees denoted by the DAG vs set of translations of all derivations',
@@ -41,7 +41,7 @@ PROPS = {
     'C06': dict(level='proof', theorem_modules=['C06', 'C01'], min_theorems=12, tags=['C06'], crash_counts=True,
                 gen=parse_family('C06', 1500, 40000, maxlen=9), flavours=['c'],
                 rule='grammars with and without error rules; non-sentences (mutated sentences, prefixes, random strings); recovery off (exact argument tuple) and on (well-formedness of every callback, strictly increasing error tokens, first error token = model)',
-                assumptions=COMMON_ASSUME + ['firstError_iff_viable is proved for lookahead 0/1 under productivity of every nonterminal (strict grammars)']),
+                assumptions=COMMON_ASSUME + ['firstError_iff_viable / firstError2_iff_viable need every nonterminal productive (strict grammars); callback theorems (calls_wf, calls_increasing) hold under r.ok (search finished within fuel)']),
     'C07': dict(level='proof', theorem_modules=['C07', 'C06', 'C02'], min_theorems=12, tags=['C07'], crash_counts=True,
                 gen=parse_family('C07', 1500, 40000, maxlen=9), flavours=['c'],
                 rule='grammars with 0..3 error rules, non-sentences <= 9 tokens, recovery_match 1..5, one/all parses, lookahead 0-2: return code, non-NULL tree, tree vs translations of the repaired input (read off the model parse list), ignored-token accounting, callbacks and final parse list vs the step-for-step recovery model',
